@@ -219,7 +219,23 @@ def check_pack_detector(chk, detector, n, kinds, where):
     fn = e.func(fname)
     b = sol.TreeBuilder()
     ks, pre = size_vars(n, 'm')
-    types = [member_type(b, i, ks[i], kinds) for i in range(n)]
+    few_symbolic = where.startswith('mixed_') and sum(1 for k_ in kinds if k_ in ('uint', 'int', 'bytes')) < 3
+    if where.startswith('mixed_'):
+        # per-member kinds: 'uint' = symbolic width as everywhere, or the name of a type of FIXED size that is not an integer / bytesN
+        # (string, bytes, mapping, array and user-defined types fill a slot of their own; address 160 bits; bool 8 bits)
+        fixed = {'String': (lambda: b.ty('String'), 256), 'DynamicBytes': (lambda: b.ty('DynamicBytes'), 256), 'Mapping': (lambda: b.mapping(b.ty('Address'), b.ty('Uint', 8)), 256),
+                 'Array': (lambda: b.index(b.ty('Uint', 8)), 256), 'User': (lambda: b.var('Token'), 256), 'Address': (lambda: b.ty('Address'), 160), 'Bool': (lambda: b.ty('Bool'), 8)}
+        types = []
+        pre = list(pre)
+        for i, kind in enumerate(kinds):
+            if kind in fixed:
+                types.append(fixed[kind][0]())
+                pre.append(ks[i] == fixed[kind][1] // 8)
+            else:
+                types.append(member_type(b, i, ks[i], [kind]))
+        where = {'mixed_contract': 'contract', 'mixed_struct': 'struct_file', 'mixed_struct_contract': 'struct_contract'}[where]
+    else:
+        types = [member_type(b, i, ks[i], kinds) for i in range(n)]
     if where in ('contract', 'abstract_contract'):
         target = b.contract('Contract' if where == 'contract' else 'Abstract', 'C', [b.cpart(b.state_var(t, 'v%d' % i)) for i, t in enumerate(types)])
         su = b.source_unit([b.supart(target)])
@@ -291,7 +307,7 @@ def check_pack_detector(chk, detector, n, kinds, where):
                       '%s: %s; member sizes %r: declared %d slots, ascending %d, descending %d' % (detector, why, vals, d, a, ds),
                       {'job': 'detect', 'detector': detector, 'source': text, 'observed': nat})
     # vacuity guards + translator validation
-    if not chk.undecided and not chk.violations and not getattr(chk, '_pending_viol', None) and (n >= 3 and (n_rep == 0 or n_not == 0)):
+    if not chk.undecided and not chk.violations and not getattr(chk, '_pending_viol', None) and (n >= 3 and not few_symbolic and (n_rep == 0 or n_not == 0)):
         chk.broken('%s n=%d: vacuous harness (reported paths %d, silent paths %d)' % (detector, n, n_rep, n_not))
     step = max(1, len(res) // (5 if chk.quick else 40))
     jobs, exp = [], []
@@ -355,7 +371,7 @@ def body(chk):
     nmem = 4 if chk.quick else 5
     chk.bounds = {'storage_slots_used: vector length': '0..%d' % maxlen, 'member sizes': '8*k bits, k in 1..32',
                   'pack detectors: members per contract/struct': '1..%d' % nmem, 'containers': 'contract, abstract contract, contract before / after another contract with 1-2 symbolic members (state variables); file level, contract, abstract contract, library, interface (structs)',
-                  'outside': 'longer member lists; members of non-elementary type (all count 256 bits, covered by get_type_size)'}
+                  'mixed members': 'string / bytes / mapping / array / user-defined (256 bits), address (160), bool (8) between, before and behind integers of symbolic width', 'outside': 'longer member lists'}
     chk.assumptions = ['slice::sort contract: result is a sorted permutation of the input',
                        'Vec/HashSet contracts of DESIGN.md 2.4', 'parser produces uintN/intN with N in 8..256 step 8 and bytesN with N in 1..32']
     check_type_size(chk)
@@ -376,6 +392,14 @@ def body(chk):
         cases.append(('pack_storage_variables', 2, ['uint'], w))
     for holder in ('struct_abstract', 'struct_library', 'struct_interface'):
         cases.append(('pack_struct_variables', 3, ['uint'], holder))
+    # members of a type that is not an integer / bytesN between, before and behind small members: their size closes slots like any other
+    mixes = [['uint', 'String', 'uint'], ['uint', 'Mapping', 'uint'], ['uint', 'DynamicBytes', 'uint', 'uint'], ['Bool', 'Array', 'Bool'], ['uint', 'User', 'Bool'],
+             ['Address', 'uint', 'Address'], ['String', 'uint', 'uint'], ['uint', 'uint', 'Mapping'], ['Bool', 'uint', 'Address', 'uint']]
+    if chk.quick:
+        mixes = mixes[:3] + [mixes[3 + (chk.seed + k) % (len(mixes) - 3)] for k in range(2)]
+    for mx in mixes:
+        cases.append(('pack_storage_variables', len(mx), mx, 'mixed_contract'))
+        cases.append(('pack_struct_variables', len(mx), mx, 'mixed_struct' if len(mx) % 2 else 'mixed_struct_contract'))
     chk.parallel(lambda c, it: check_pack_detector(c, *it), cases)
     kani_cross_check(chk)
 
